@@ -147,6 +147,7 @@ func threadRun(L *LState) {
 				lv = LString(fmt.Sprint(rcv))
 			}
 			if parent := L.Parent; parent != nil {
+				L.closeUpvalues(0)
 				if L.wrapped {
 					L.Push(lv)
 					L.G.CurrentThread = parent
